@@ -123,6 +123,21 @@ def fam_removal():
     return out
 
 
+def fam_reentrant_unschedule():
+    """C04 / C05: whichever handler of a watch is handed the event first removes the whole watch (unschedule / unschedule_all)
+    from inside its callback; the other handlers of that watch are no longer registered and must not see the event.  Both
+    handlers carry the script, so the case does not depend on the iteration order of the handler set."""
+    out = []
+    for k in (1, 2):
+        for ops in ([["unschedule", 1]], [["unschedule_all"]]):
+            out.append({"threads": {"app1": [["schedule", 1, 1], ["add", 2, 1], ["start"], ["await"], ["stop"], ["join"]]},
+                        "emit": {"1": [1, 2, 3]}, "scripts": {"1": {str(k): ops}, "2": {str(k): ops}}})
+    # three handlers, the first one served unschedules
+    out.append({"threads": {"app1": [["schedule", 1, 1], ["add", 2, 1], ["add", 3, 1], ["start"], ["await"], ["stop"], ["join"]]},
+                "emit": {"1": [1, 2]}, "scripts": {h: {"1": [["unschedule", 1]]} for h in ("1", "2", "3")}})
+    return out
+
+
 def fam_lifecycle():
     """C06: orders of start / schedule / unschedule / unschedule_all / stop (twice) / join from 2 threads and callbacks."""
     out = []
@@ -346,7 +361,13 @@ def run_families(c: checklib.Check, prop, families, *, bound, random_n=0, dfs_jo
                     foreign[owner] = foreign.get(owner, 0) + 1
         else:
             owner, clause, ln = attribute(tr, v["furthest"])
-            if owner == prop:
+            owners = {owner: clause}
+            if clause == "P_C05_NoCallAfterReturn":
+                # a callback after the removal of its (handler, watch) pair had returned breaks C05 and also C04's
+                # "a handler never receives an event of a watch it is not registered for"
+                owners["C04"] = "P_C04_NeverToUnregistered"
+            if prop in owners:
+                clause = owners[prop]
                 c.violation(clause, f"no placement of the unlogged steps explains line {v['furthest']}: {ln} "
                                     f"(family {m['family']})", rp, signature=sig_of(clause, tr, ln))
             else:
